@@ -70,13 +70,15 @@ type Exec struct {
 	maxInline int
 	frameCtr  int
 	instSuffix string
+	genFrontier  map[int]*Term   // allocation frontier when a heap generation was introduced
+	baseFrontier map[*Term]*Term // per base heap array variable: everything it contains is older than this
 	entryEval func(text string) (*Term, error)
 }
 
 func NewExec(W *World, prop string) *Exec {
 	f := NewFactory()
 	return &Exec{f: f, tm: NewTypeMap(f), W: W, prop: prop, notes: map[string]int{}, compSort: map[string]Sort{},
-		closures: map[*Term]*closureInfo{}, usedContracts: map[string]bool{}, inlined: map[string]bool{}, havocked: map[string]int{}, trustedUsed: map[string]bool{}, maxInline: 6}
+		genFrontier: map[int]*Term{}, baseFrontier: map[*Term]*Term{}, closures: map[*Term]*closureInfo{}, usedContracts: map[string]bool{}, inlined: map[string]bool{}, havocked: map[string]int{}, trustedUsed: map[string]bool{}, maxInline: 6}
 }
 
 func (ex *Exec) note(format string, a ...interface{}) {
@@ -105,6 +107,9 @@ func (ex *Exec) comp(st *State, name string, s Sort) *Term {
 	ex.compSort[name] = s
 	t := ex.f.Var(fmt.Sprintf("%s@%d", name, st.gen), s)
 	st.heap[name] = t
+	if fr, ok := ex.genFrontier[st.gen]; ok && !strings.HasPrefix(name, "L.") && !strings.HasPrefix(name, "IT.") {
+		ex.baseFrontier[t] = fr
+	}
 	return t
 }
 
@@ -114,6 +119,9 @@ func (ex *Exec) setComp(st *State, name string, v *Term) {
 }
 
 func (ex *Exec) havocAll(st *State, why string) {
+	if debugOn {
+		fmt.Printf("DEBUG havocAll: %s\n", why)
+	}
 	ex.genCtr++
 	st.gen = ex.genCtr
 	keep := map[string]*Term{}
@@ -126,17 +134,30 @@ func (ex *Exec) havocAll(st *State, why string) {
 	nf := ex.f.Fresh("frontier", SInt)
 	ex.assume(st, ex.f.Ge(nf, st.frontier))
 	st.frontier = nf
+	ex.genFrontier[st.gen] = nf
 	st.world = ex.f.Fresh("world", SInt)
 	ex.havocked[why]++
 }
 
 func (ex *Exec) havocComps(st *State, names []string) {
+	// whoever rewrote these components may have allocated: the frontier moves, and the new contents only
+	// refer to objects older than the new frontier
+	nf := ex.f.Fresh("frontier", SInt)
+	ex.assume(st, ex.f.Ge(nf, st.frontier))
+	st.frontier = nf
+	fresh := func(k string, s Sort) {
+		t := ex.f.Fresh(k, s)
+		st.heap[k] = t
+		if !strings.HasPrefix(k, "L.") && !strings.HasPrefix(k, "IT.") {
+			ex.baseFrontier[t] = nf
+		}
+	}
 	for _, n := range names {
 		if strings.HasSuffix(n, ".*") {
 			pre := strings.TrimSuffix(n, "*")
 			for k, s := range ex.compSort {
 				if strings.HasPrefix(k, pre) {
-					st.heap[k] = ex.f.Fresh(k, s)
+					fresh(k, s)
 				}
 			}
 			continue
@@ -146,7 +167,7 @@ func (ex *Exec) havocComps(st *State, names []string) {
 			continue
 		}
 		if s, ok := ex.compSort[n]; ok {
-			st.heap[n] = ex.f.Fresh(n, s)
+			fresh(n, s)
 		}
 	}
 }
@@ -366,6 +387,75 @@ func (ex *Exec) alloc(st *State) *Term {
 	return r
 }
 
+// origContents strips every store from the array part of a select chain, giving the corresponding
+// read of the underlying base array variable (nil if the chain does not end in a tracked base variable).
+func (ex *Exec) origContents(t *Term) (*Term, *Term) {
+	f := ex.f
+	switch t.op {
+	case "var":
+		if fr, ok := ex.baseFrontier[t]; ok {
+			return t, fr
+		}
+		return nil, nil
+	case "store":
+		return ex.origContents(t.args[0])
+	case "select":
+		a, fr := ex.origContents(t.args[0])
+		if a == nil {
+			return nil, nil
+		}
+		return f.Select(a, t.args[1]), fr
+	}
+	return nil, nil
+}
+
+// loadedRefFacts: what is known about references inside a value that was read from the heap. The heap
+// as it was when a base array variable was introduced (function entry, after a havoc) only contains
+// references older than the allocation frontier of that moment; in particular it cannot contain an
+// object allocated later by the function itself.
+func (ex *Exec) loadedRefFacts(v *Term, t types.Type, depth int) *Term {
+	f := ex.f
+	t = types.Unalias(t)
+	if _, ok := ex.tm.special[typeFullName(t)]; ok {
+		return f.True()
+	}
+	var facts []*Term
+	var leaf func(x *Term, wrap func(*Term) *Term)
+	leaf = func(x *Term, wrap func(*Term) *Term) {
+		switch {
+		case x.op == "ite":
+			leaf(x.args[1], wrap)
+			leaf(x.args[2], wrap)
+		case x.op == "select":
+			if o, fr := ex.origContents(x); o != nil {
+				facts = append(facts, f.Lt(wrap(o), fr))
+			}
+		}
+	}
+	switch u := t.Underlying().(type) {
+	case *types.Pointer, *types.Map:
+		leaf(v, func(x *Term) *Term { return x })
+	case *types.Slice:
+		leaf(v, func(x *Term) *Term { return f.Acc("Slice", "ref", x) })
+		if v.op == "mk:Slice" {
+			leaf(v.args[0], func(x *Term) *Term { return x })
+		}
+	case *types.Struct:
+		if depth <= 0 {
+			break
+		}
+		dt, s, ok := ex.tm.StructOf(t)
+		if !ok {
+			break
+		}
+		_ = u
+		for i := 0; i < s.NumFields(); i++ {
+			facts = append(facts, ex.loadedRefFacts(f.Acc(dt, fieldName(s, i), v), s.Field(i).Type(), depth-1))
+		}
+	}
+	return f.And(facts...)
+}
+
 // refsBelow: every reference reachable in one step from x is older than the allocation frontier.
 func (ex *Exec) refsBelow(x *Term, t types.Type, fr *Term, depth int) *Term {
 	f := ex.f
@@ -474,6 +564,9 @@ func (ex *Exec) merge(states []*State) *State {
 		res.heap = nh
 		res.gen = newGen
 		res.frontier = f.Ite(c, s.frontier, res.frontier)
+		if _, ok := ex.genFrontier[newGen]; !ok {
+			ex.genFrontier[newGen] = res.frontier
+		}
 		res.world = f.Ite(c, s.world, res.world)
 		res.pc = ex.orFactor(res.pc, s.pc)
 	}
@@ -521,6 +614,7 @@ type loopInfo struct {
 	header *ssa.BasicBlock
 	body   map[*ssa.BasicBlock]bool
 	ord    int
+	head   *State // state at the loop head (after havoc and invariants), for prev() in step clauses
 }
 
 func (fr *Frame) key() string { return fnKey(fr.fn) }
@@ -1127,6 +1221,9 @@ func (fr *Frame) pushEdge(incoming map[*ssa.BasicBlock][]edge, from, to *ssa.Bas
 	}
 	if to.Dominates(from) {
 		// back edge: prove the invariant is re-established, path ends
+		if debugOn {
+			fmt.Printf("DEBUG back edge %s: %d -> %d (loop known: %v, verifying %v)\n", fr.fn.Name(), from.Index, to.Index, fr.loops[to] != nil, fr.verifyingRoot())
+		}
 		if li := fr.loops[to]; li != nil {
 			fr.loopBackEdge(st, li, from)
 		}
@@ -1246,7 +1343,7 @@ func (fr *Frame) step(st *State, in ssa.Instruction) bool {
 		}
 	case *ssa.Call:
 		res := fr.call(st, x.Common(), x)
-		if res == nil {
+		if st.pc.IsFalse() {
 			return false
 		}
 		sig := x.Common().Signature()
@@ -1375,7 +1472,7 @@ func (fr *Frame) unop(st *State, x *ssa.UnOp) *Term {
 		fr.safetyOb(st, x, "nil", f.Neq(p, f.Int(0)))
 		v := ex.load(st, p, x.Type())
 		ex.assume(st, ex.tm.WellTyped(v, x.Type(), 1))
-		ex.assume(st, ex.refsBelow(v, x.Type(), st.frontier, 1))
+		ex.assume(st, ex.loadedRefFacts(v, x.Type(), 1))
 		return v
 	case token.NOT:
 		return f.Not(fr.val(x.X))
@@ -1607,7 +1704,7 @@ func (fr *Frame) lookup(st *State, x *ssa.Lookup) {
 	}
 	has := f.And(f.Neq(m, f.Int(0)), ex.mapHas(st, m, k, mt))
 	raw := ex.mapVal(st, m, k, mt)
-	ex.assume(st, f.Implies(has, f.And(ex.tm.WellTyped(raw, mt.Elem(), 1), ex.refsBelow(raw, mt.Elem(), st.frontier, 1))))
+	ex.assume(st, f.Implies(has, f.And(ex.tm.WellTyped(raw, mt.Elem(), 1), ex.loadedRefFacts(raw, mt.Elem(), 1))))
 	v := f.Ite(has, raw, ex.tm.Zero(mt.Elem()))
 	if x.CommaOk {
 		fr.tup[x] = []*Term{v, has}
@@ -1694,7 +1791,7 @@ func (fr *Frame) rangeNext(st *State, x *ssa.Next) {
 	ex.assume(st, f.Implies(f.And(f.Not(ok), f.Neq(m, f.Int(0))), f.Forall([]*Term{bk}, f.Implies(f.Select(hasArr, bk), f.Select(visited, bk)))))
 	ex.setComp(st, id, f.Ite(ok, f.Store(visited, k, f.True()), visited))
 	raw := ex.mapVal(st, m, k, mt)
-	ex.assume(st, f.Implies(ok, f.And(ex.tm.WellTyped(raw, mt.Elem(), 1), ex.refsBelow(raw, mt.Elem(), st.frontier, 1))))
+	ex.assume(st, f.Implies(ok, f.And(ex.tm.WellTyped(raw, mt.Elem(), 1), ex.loadedRefFacts(raw, mt.Elem(), 1))))
 	fr.tup[x] = []*Term{ok, k, raw}
 }
 
